@@ -828,7 +828,8 @@ impl Gen {
                 let opts: Vec<&'static str> = match self.cwd.as_slice() {
                     [] => vec!["d1", "d2", "d1/dd", "f1", "nodir", ".", "..", "d1/..", "f1/.", "f1/..", "d1/dd/.."],
                     ["d1"] => vec!["dd", "g", "nodir", "..", ".", "dd/..", "g/..", "../d2"],
-                    _ => vec!["nodir", "g", "..", ".", "../.."],
+                    ["d1", "dd"] => vec!["nodir", "..", ".", "../..", "../g"],
+                    _ => vec!["nodir", "g", "..", "."],
                 };
                 let p = *self.rng.pick(&opts);
                 match p {
